@@ -169,7 +169,7 @@ struct Scn { int family = 0; int msb = 2; int offset = 0; std::vector<Op> ops; i
 static std::string ser(const Scn &s) { std::ostringstream o; o << "scn " << s.kind << " " << s.family << " " << s.msb << " " << s.offset << " " << s.porta << "\n" << ser_ops(s.ops); return o.str(); }
 static Scn deser(const std::string &t) { Scn s; std::istringstream in(t); std::string w; in >> w >> s.kind >> s.family >> s.msb >> s.offset >> s.porta; s.ops = deser_ops(in); return s; }
 
-struct SInfo { unsigned fanouts = 0, glides = 0; bool held_seen = false; };
+struct SInfo { unsigned fanouts = 0, glides = 0, starts = 0; bool held_seen = false; };
 
 static void run_scenario(const Scn &s, SInfo &info) {
     World W; W.start(8000, s.family ? EMU_NP2 : EMU_GENS, 2);
@@ -190,6 +190,22 @@ static void run_scenario(const Scn &s, SInfo &info) {
         if(p.kind == O_NOTEON && s.kind == 1 && p.c > 0) { if(last_key[p.a] >= 0) glide_from[{p.a, p.b}] = last_key[p.a]; else glide_from.erase({p.a, p.b}); last_key[p.a] = p.b; }
         if(p.kind == O_NOTEOFF || (p.kind == O_NOTEON && p.c == 0)) glide_from.erase({p.a, p.b});
         W.apply(p);
+        if(p.kind == O_NOTEON && s.kind == 1 && p.c > 0 && W.last_ret == 1) {
+            // portamento start point: the note is keyed on at the tone of the channel's previous note-on (its own tone when there was none)
+            Snapshot post = take_snapshot(W.I);
+            for(size_t c = 0; c < post.nchan; c++) for(const SnapUser &u : post.users[c]) if((int)u.midch == p.a && (int)u.note == p.b && u.sustained == 0 && post.users[c].size() == 1) {
+                double start = glide_from.count({p.a, p.b}) ? glide_from[{p.a, p.b}] : (double)p.b;
+                double off = (W.I.play()->m_midiChannels[(size_t)p.a].patch == 0) ? s.offset : 0;
+                double pp = start + off + bend[p.a] * (double)s.msb / 8192.0;
+                if(expect_hz(pp) >= 6600.0) continue;
+                std::vector<Pitch> w = decode_all(from, c, s.family);
+                if(w.empty()) continue; // nothing written for this chip channel in this call: it was not (re)started here
+                std::string cx = fmt("portamento start point, step %zu: ch %d key %d (previous note-on key %.0f) on chip channel %zu", i + 1, p.a, p.b, start, c);
+                std::vector<Pitch> first(1, w[0]);
+                judge_any(first, pp, cx.c_str());
+                info.starts++;
+            }
+        }
         if(p.kind == O_BEND) {
             bend[p.a] = p.b - 8192;
             info.fanouts++;
@@ -238,8 +254,8 @@ static void run_scenario(const Scn &s, SInfo &info) {
         }
     }
     if(s.kind == 1) {
-        // let every glide finish (slowest generated rate 350*2^-3.1 = 41 semitones/s; 24 semitones need < 1 s), then probe each held key with a zero bend message
-        W.advance_ms(1500);
+        // let every glide finish (slowest generated rate 350*2^-3.1 = 41 semitones/s; 127 semitones need 3.1 s), then probe each held key with a zero bend message
+        W.advance_ms(4000);
         for(int ch = 0; ch < 2; ch++) {
             Snapshot pre = take_snapshot(W.I);
             size_t from = tap().log.size();
@@ -260,7 +276,7 @@ static rc::Gen<std::vector<Op>> genScnOps(int kind) {
     using namespace rc;
     auto op = gen::map(gen::tuple(rng<int>(0, 19), rng<int>(0, 1000), rng<int>(0, 1000)), [kind](std::tuple<int, int, int> t) {
         int k = std::get<0>(t), a = std::get<1>(t), b = std::get<2>(t);
-        int ch = a % 2; int key = 36 + (b % 49);
+        int ch = a % 2; static const int edge[] = {0, 1, 2, 12, 108, 120, 126, 127}; int key = (kind == 1 && b % 6 == 0) ? edge[(b / 6) % 8] : 36 + (b % 49);
         if(k < 8) return Op{O_NOTEON, ch, key, 1 + a % 127};
         if(k < 11) return Op{O_NOTEOFF, ch, key, 0};
         if(k < 15) return Op{O_BEND, ch, (b % 5 == 0) ? 8192 : (b * 131) % 16384, 0};
@@ -314,7 +330,7 @@ int main(int argc, char **argv) {
     pbt("c10_portamento", c.n, 60, []() {
         Scn s; s.kind = 1; s.family = *rng<int>(0, 1); s.msb = 2; s.offset = *rc::gen::element(0, 0, -12, 5); s.porta = *rng<int>(1, 50); s.ops = within_polyphony(*genScnOps(1), 11);
         std::string t = ser(s);
-        run_case(t, [&] { SInfo si; run_scenario(s, si); ctx().stats.note_case(t, si.glides > 0); ctx().stats.label("glide_repitches_judged", si.glides); });
+        run_case(t, [&] { SInfo si; run_scenario(s, si); ctx().stats.note_case(t, si.glides > 0); ctx().stats.label("glide_repitches_judged", si.glides); ctx().stats.label("portamento_start_points_judged", si.starts); });
     });
     return finish();
 }
